@@ -1147,7 +1147,13 @@ def oracle_c18(R):
             v.append(('c18:returned-before-done',
                       f'shutdown returned with futures done={dar}'))
         fin = end.get('final_step', ret)
+        # a callback that runs inside a user thread's own cancel() call
+        # (still executing when shutdown returns elsewhere) is that thread's
+        # business, not the manager's: only manager threads are judged
+        user_tids = {t.tid for t in R.sched.threads if t.role == 'canceller'}
         for (step, tid, k, info) in R.trace.events:
+            if tid in user_tids:
+                continue
             if step > ret and (k.startswith(('s3.', 'fs.', 'dst.', 'src.',
                                              'cb.'))):
                 v.append((f'c18:{k}-after-shutdown',
@@ -1283,4 +1289,48 @@ def oracle_c14(R):
                         v.append((f'c14:{kind}:copy-ranges',
                                   f'CopySourceRanges end at {nxt}, size '
                                   f'{size}'))
+    return v
+
+
+# ----------------------------------------------------------------- C13 e2e
+def oracle_c13_e2e(R):
+    v = []
+    bwv = cfg_of(R).get('max_bandwidth')
+    thr = R.case.get('bw_threshold') or 256 * 1024
+    for r in R.all_recs():
+        if (r['outcome'] or {}).get('ok'):
+            sym = content_violation(R, r)
+            if sym:
+                v.append((f'c13:e2e:{kind_of(r)}:content-{sym}',
+                          f'transfer {r["i"]} under max_bandwidth: {sym}'))
+    for (step, tid, d, clk, unbilled) in R.bw_sleeps:
+        if unbilled:
+            v.append(('c13:e2e:signing-read-throttled',
+                      f'a sleep of {d}s was requested during a signing / '
+                      f'pre-flight read (not a transfer)'))
+            break
+    if not bwv:
+        return v
+    ev = []
+    calls = set()
+    for (step, tid, k, info) in R.trace.events:
+        if k in ('s3.sent', 's3.stream'):
+            ev.append((info['clk'], info['n']))
+            calls.add(info['call'])
+    ev.sort()
+    if ev:
+        largest = max(n for _, n in ev)
+        burst = 3 * (thr + largest) * max(1, len(calls))
+        pre = [0]
+        for _, n in ev:
+            pre.append(pre[-1] + n)
+        for a in range(len(ev)):
+            for b in range(a, len(ev)):
+                B = pre[b + 1] - pre[a]
+                T = ev[b][0] - ev[a][0]
+                if B > (1.25 * bwv * T + burst) * (1 + 1e-9):
+                    v.append(('c13:e2e:rate-exceeded',
+                              f'{B} bytes moved by the manager in {T:.4f}s; '
+                              f'max_bandwidth {bwv} B/s, burst {burst}'))
+                    return v
     return v
